@@ -38,6 +38,7 @@ type c14AccInterp struct {
 	caseOps []string
 	rawTx   []byte
 	nTx     int
+	flag    bool
 }
 
 func c14RawTx() []byte {
@@ -140,6 +141,16 @@ func (in *c14AccInterp) exec(line string) string {
 		in.w = c14.NewWorld()
 		in.objs, in.exps = nil, nil
 		in.known = map[uint64]string{}
+		in.flag = false
+		ipldbindcode.DisableHashVerification = false
+		return "ok"
+	case "flag":
+		// the process-wide switch `index gsfa` sets (default flags: true) and never resets
+		if len(w) != 3 || w[1] != "disableHashVerification" {
+			return "bad-op"
+		}
+		in.flag = w[2] == "true"
+		ipldbindcode.DisableHashVerification = in.flag
 		return "ok"
 	case "frame":
 		f, err := c14.ParseSpec(w)
@@ -213,7 +224,12 @@ func (in *c14AccInterp) judge(ans string) {
 			a = "ok " + c14.Digest(nil)
 		}
 		if v := in.exps[i].Judge(a); v != "" {
-			in.s.Violation("accum: "+v, "C14:accum:"+in.exps[i].Mode+":"+in.exps[i].Fault, in.s.Replay(in.caseOps))
+			key := "C14:accum:" + in.exps[i].Mode + ":" + in.exps[i].Fault
+			if in.flag {
+				key = c14.FlagKey
+				v = "with ipldbindcode.DisableHashVerification set (the state `index gsfa` leaves behind): " + v
+			}
+			in.s.Violation("accum: "+v, key, in.s.Replay(in.caseOps))
 		}
 	}
 }
@@ -258,9 +274,13 @@ func c14AccGenerate(g *c14.Gen, s *zz.Session, thorough bool) {
 			g.Emit("push %d", p.IDs[j])
 		}
 	}
+	flagPhase := false
 	block := func(nTx int, maxContent int, kMax int, faulted bool) {
 		caseNo++
-		g.Emit("case run=accum #%d txs=%d faulted=%v", caseNo, nTx, faulted)
+		g.Emit("case run=accum #%d txs=%d faulted=%v flag-phase=%v", caseNo, nTx, faulted, flagPhase)
+		if flagPhase {
+			g.Emit("flag disableHashVerification true")
+		}
 		var txs []c14Tx
 		for t := 0; t < nTx; t++ {
 			var z []byte
@@ -277,6 +297,9 @@ func c14AccGenerate(g *c14.Gen, s *zz.Session, thorough bool) {
 			hk := hashKinds[g.R.Intn(3)]
 			if g.R.Intn(3) > 0 {
 				hk = "crc"
+			}
+			if flagPhase {
+				hk = hashKinds[g.R.Intn(2)]
 			}
 			p := g.Layout(z, k, F, hk, true, orders[g.R.Intn(3)], []string{"even", "random"}[g.R.Intn(2)])
 			if k == 1 {
@@ -343,7 +366,11 @@ func c14AccGenerate(g *c14.Gen, s *zz.Session, thorough bool) {
 			if thorough {
 				lim = 10
 			}
-			for _, sc := range g.Faults(p, q, lim) {
+			scs := g.Faults(p, q, lim)
+			if flagPhase {
+				scs = g.ContentFaults(p, q)
+			}
+			for _, sc := range scs {
 				if sc.ND || sc.Mode == "none" {
 					// without a recorded checksum altered bytes reach zstd, whose answer the model cannot
 					// predict (a flipped window-size bit still decodes to the same content); the tooling
@@ -356,7 +383,11 @@ func c14AccGenerate(g *c14.Gen, s *zz.Session, thorough bool) {
 					// in data-frames.go says so); a writer never produces this: compared with the model only
 					sc.Mode = "none"
 				}
-				s.Count("fault:" + sc.Name)
+				if flagPhase {
+					s.Count("flag-phase:fault:" + sc.Name)
+				} else {
+					s.Count("fault:" + sc.Name)
+				}
 				for _, l := range sc.Setup {
 					if !strings.HasPrefix(l, "del ") {
 						g.Emit("%s", l)
@@ -367,7 +398,7 @@ func c14AccGenerate(g *c14.Gen, s *zz.Session, thorough bool) {
 					g.Emit("%s", l)
 				}
 			}
-			if p.K > 1 {
+			if p.K > 1 && !flagPhase {
 				for _, pl := range []string{"frames-after-own-tx", "frames-before-previous-tx", "frames-twice"} {
 					if pl == "frames-before-previous-tx" && v == 0 {
 						continue
@@ -396,12 +427,27 @@ func c14AccGenerate(g *c14.Gen, s *zz.Session, thorough bool) {
 	if thorough {
 		block(3, 200*1024, 40, true)
 	}
+	// configuration phase: ipldbindcode.DisableHashVerification set, as after `index gsfa` with default flags
+	flagPhase = true
+	for _, k := range []int{1, 2, 5, 12, 60} {
+		block(1, 600, k, true)
+	}
+	block(3, 2000, 6, true)
+	if thorough {
+		for i := 0; i < 60; i++ {
+			block(1+g.R.Intn(4), 1+g.R.Intn(4000), 1+g.R.Intn(20), true)
+		}
+	}
+	flagPhase = false
 }
 
 func TestVerifC14Accum(t *testing.T) {
 	s := zz.NewSession()
 	defer s.Close()
 	in := &c14AccInterp{s: s, w: c14.NewWorld(), known: map[uint64]string{}, rawTx: c14RawTx()}
+	savedFlag := ipldbindcode.DisableHashVerification
+	defer func() { ipldbindcode.DisableHashVerification = savedFlag }()
+	c14ProbeSingleFrameShortcut(s)
 	var ops []string
 	if rp := zz.ReplayFile(); rp != "" {
 		data, err := os.ReadFile(rp)
@@ -417,5 +463,37 @@ func TestVerifC14Accum(t *testing.T) {
 	for _, op := range ops {
 		out := in.exec(op)
 		s.Op(op, out, strings.HasPrefix(out, "ok "))
+	}
+}
+
+// c14ProbeSingleFrameShortcut records (statistics only, no verdict) what the unchanged code does on the
+// single-frame shortcut of Transaction.GetSolanaTransaction — the one place where the real code consults
+// ipldbindcode.DisableHashVerification: a one-frame transaction payload whose recorded CRC does not match
+// its (altered, still parseable) bytes, with the flag clear and with the flag set.
+func c14ProbeSingleFrameShortcut(s *zz.Session) {
+	saved := ipldbindcode.DisableHashVerification
+	defer func() { ipldbindcode.DisableHashVerification = saved }()
+	orig := c14RawTx()
+	altered := append([]byte{}, orig...)
+	altered[len(altered)-1] ^= 1 // last byte of the instruction data: the transaction still parses
+	h := int(c14.Crc(orig))
+	hp := &h
+	one, zero := 1, 0
+	oneP, zeroP := &one, &zero
+	txn := ipldbindcode.Transaction{Kind: 0, Data: ipldbindcode.DataFrame{Kind: 6, Hash: &hp, Index: &zeroP, Total: &oneP, Data: altered},
+		Metadata: ipldbindcode.DataFrame{Kind: 6, Index: &zeroP, Total: &oneP, Data: []byte{}}, Slot: 1}
+	for _, flag := range []bool{false, true} {
+		ipldbindcode.DisableHashVerification = flag
+		tx, err := txn.GetSolanaTransaction()
+		verdict := "rejected"
+		if err == nil {
+			raw, _ := tx.MarshalBinary()
+			if string(raw) == string(orig) {
+				verdict = "returned-original"
+			} else {
+				verdict = "accepted-altered-bytes"
+			}
+		}
+		s.Count(fmt.Sprintf("probe:GetSolanaTransaction-single-frame-hash-mismatch:flag=%v:%s", flag, verdict))
 	}
 }
